@@ -115,6 +115,12 @@ def run_case(ctx, idx, rng, tier):
             raise RuntimeError(f"declare_variable failed: {ev.exc!r}")
     for o in T:
         ev = rA.step(copy.deepcopy(o))
+        if ev.exc is not None and ev.stage != "call":
+            # the arguments themselves (expressions over the declared variables, waveforms / pulses of them) could not
+            # be written down although the reference evaluates them: no call was made yet
+            ctx.violation("expression-refused", f"building the arguments of {o['op']} from the variables raised "
+                          f"{type(ev.exc).__name__}: {str(ev.exc)[:200]}", f"expression-refused:{type(ev.exc).__name__}", case=case)
+            return
         if ev.exc is not None:
             # A call that succeeds when issued directly may be refused while the sequence is parametrized
             # (deferred DMM declaration, SLM ...): then no such parametrized sequence exists and the statement is
